@@ -258,7 +258,11 @@ fn spec_inner(property: &str, tier: &str) -> Option<CheckSpec> {
 				vec!["release build of the harness (shipped arithmetic: overflow checks off)", "allocation is measured process-wide with a counting global allocator; harness-side buffers are bounded by the input length", "the HTTP layer (hyper, TLS, basic auth, body size handling) is not run: documents enter at handle_request exactly as parse_body hands them over"],
 				vec!["mutation:truncate", "mutation:field64", "mutation:splice", "merkle-hex:random", "huge_frame_header:codec", "huge_frame_header:read_message", "api-request:hexlen", "api-request:u64max", "api-response-mutation"],
 			);
-			sp.required_probes = ["api_valid:push_transaction", "api_valid:get_unspent_outputs", "api_valid:get_status", "api_mutant_answered_ok", "api_response_mutant_decoded"].iter().map(|s| s.to_string()).collect();
+			sp.required_probes = ["api_valid:push_transaction", "api_valid:get_unspent_outputs", "api_valid:get_status", "api_mutant_answered_ok", "api_response_mutant_decoded", "net_hostile_node_alive_afterwards", "net_hostile_connection_closed_by_node", "net_hostile_node_answered"].iter().map(|s| s.to_string()).collect();
+			sp.engine = "wiresim+apisim+netsim".to_string();
+			sp.rule.push_str(". One case in five (E11 netsim, hostile peer): a complete real node (chain with 34 real-PoW blocks, pool, adapters, Peers, a real Peer per connection with its reader / writer threads and Protocol) receives from a simulated peer every message of the wire corpus, real segment answers, and well-formed requests and answers naming things that are not there (unknown hashes in GetHeaders / GetBlock / GetCompactBlock / GetTransaction / TransactionKernel / TxHashSetRequest, segment requests for 4 types x 10 heights x 3 indices and two block hashes, unsolicited TxHashSetArchive announcing 0 and 2^40 bytes, Ping with 2^64-1), each valid and in ~20 (thorough ~60) length-consistent mutations (bit flips, boundary values in 64/32/16-bit windows, small bytes, segment identifier sweeps, random and shortened bodies); one run in three with the node in PIBD status. One message in flight (ping/pong barrier); a connection the node closes is replaced by a new one. Oracle: no panic on any node thread, every message is followed by a Pong or a closed connection within 30 s, no single allocation above 18 x frame length + 4 MiB while the node handles it, and afterwards an honest peer's GetBlock for the head is answered");
+			sp.real_components.extend(net_real());
+			sp.stub_components.extend(net_stub());
 			sp.real_components = vec![
 				"grin_p2p Codec::read / decode_message / MsgHeaderWrapper::read / read_message".into(),
 				"grin_core ser readers for every message body, UntrustedBlock/Header/CompactBlock, TransactionBody::read, Segment/SegmentProof/BitmapSegment readers, MerkleProof::read/from_hex".into(),
@@ -1198,6 +1202,9 @@ pub fn run_case(property: &str, tier: &str, seed: u64, case: u64) -> CaseResult 
 		"C11" => {
 			if case % 5 == 4 {
 				crate::apisim::case(tier, seed, case)
+			} else if case % 5 == 2 {
+				// a hostile peer against the complete node: decoders *and* the handlers behind them
+				crate::netsim::hostile_case(tier, seed, case)
 			} else {
 				crate::wiresim::c11_case(tier, seed, case)
 			}
